@@ -901,6 +901,9 @@ func Run(r *common.Run) error {
 				}
 				c.frHist(f[2] == "ws", f[3] == "recv", ops)
 			}
+			if len(f) == 3 && f[0] == "C10" && f[1] == "srv" {
+				c.srv(strings.Split(f[2], ","))
+			}
 			if len(f) == 4 && f[0] == "C10" && f[1] == "held" {
 				c.heldReader(f[2], f[3])
 			}
@@ -940,6 +943,7 @@ func Run(r *common.Run) error {
 	c.closeBlocked()
 	c.envCases()
 	c.framingCases()
+	c.srvCases()
 	r.Mark("case abandoned transmit calls")
 	for i, op := range abandonOps {
 		for k, kind := range abandonKinds {
